@@ -28,7 +28,8 @@ META = {
             "edits at both ends, hunks close together and far apart, lines that look like diff syntax) + a separate exotic "
             "stream; non-trivial = non-empty diff, distinct by (old,new) text. end-to-end: 2-4 file projects with trigger "
             "blocks of libcst-only codemods (+ dependency-adding ones and a manifest) in layout variants, random codemod "
-            "sequences through the real CLI; non-trivial = at least one changeset, distinct by (project, sequence)",
+            "sequences through the real CLI, plus SAST-mode projects (tool result files from real spans) for the tool-driven "
+            "dependency-adding codemods with every manifest kind; non-trivial = at least one changeset, distinct by (project, sequence)",
     "trusted": ["difflib.SequenceMatcher (matching oracle; only its two contracts are used and they are tested each run)",
                 "libcst parse/codegen (oracle; code(parse t) = t is the contract of the FromTrees variant, tested each run)",
                 "harness/c03_ref.py: Python transcription of apply_udiff (cross-checked against Coq on every case)"],
@@ -520,13 +521,95 @@ def gen_project(rng, known_ok=False):
     return files, seq, " ".join(desc)
 
 
-def run_project(ctx, files, seq, tag):
+# ---- SAST mode: tool-driven variants of the dependency-adding codemods -------------------------
+def sast_templates():
+    """(Template of harness/c06_sites, adds a dependency?) for the tool-driven codemods; the result-file entries are
+    computed from the real libcst spans of the generated program in each tool's own convention"""
+    from harness import c06_sites as S
+    SSRF = "python.flask.security.injection.ssrf-requests.ssrf-requests"
+    SYSCALL = "python.lang.security.dangerous-system-call.dangerous-system-call"
+    return [
+        (S.Template("sonar:python/sandbox-process-creation", "sonar", "pythonsecurity:S2076", "import subprocess\n",
+                    "v{i} = subprocess.run(c{i})", "value"), True),
+        (S.Template("sonar:python/sandbox-process-creation", "sonar", "pythonsecurity:S2076", "import os\n",
+                    "v{i} = os.popen(c{i})", "value"), True),
+        (S.Template("sonar:python/url-sandbox", "sonar", "pythonsecurity:S5144", "import requests\n",
+                    "v{i} = requests.get(u{i})", "value"), True),
+        (S.Template("semgrep:python/url-sandbox", "semgrep", SSRF, "import requests\n", "v{i} = requests.get(u{i})", "value"), True),
+        (S.Template("semgrep:python/use-defusedxml", "semgrep", "python.lang.security.use-defused-xml-parse.use-defused-xml-parse",
+                    "import xml.etree.ElementTree as ET\n", "v{i} = ET.parse(p{i})", "value"), True),
+        (S.Template("semgrep:python/sandbox-process-creation", "semgrep", SYSCALL, "import os\n", "v{i} = os.system(c{i})", "value"), True),
+        (S.Template("semgrep:python/sandbox-process-creation", "semgrep", SYSCALL, "import subprocess\n",
+                    "v{i} = subprocess.run(c{i})", "value"), True),
+        (S.Template("defectdojo:python/avoid-insecure-deserialization", "defectdojo", S.DD_DESER, "import yaml\n",
+                    "v{i} = yaml.load(d{i})", "value"), False),
+        (S.Template("sonar:python/secure-random", "sonar", "python:S2245", "import random\n", "v{i} = random.random()", "value"), False),
+    ]
+
+
+def gen_manifest(rng, kind, known_ok=False):
+    if kind == "requirements.txt":
+        return gen_requirements(rng)
+    if kind == "pyproject.toml":
+        return gen_pyproject(rng)
+    if kind == "setup.cfg":
+        return gen_setupcfg(rng)
+    return gen_setup_py(rng, [])
+
+
+def gen_sast_project(rng, manifest=None):
+    """-> (files, codemod ids, description, sast spec).  One tool per project (one result file); one or two tool-driven
+    codemods of that tool, each with 1-3 sites per file of which a random subset is reported; any manifest kind."""
+    from harness import c06_sites as S
+    temps = sast_templates()
+    first, adds = rng.choice([x for x in temps if x[1]] * 4 + [x for x in temps if not x[1]])
+    chosen = [first]
+    if rng.random() < 0.35:
+        more = [x[0] for x in temps if x[0].tool == first.tool and x[0].id != first.id]
+        if more:
+            chosen.append(rng.choice(more))
+    if rng.random() < 0.5:
+        rng.shuffle(chosen)
+    files, entries, desc, kid = {}, [], [], 0
+    for ti, t in enumerate(chosen):
+        for fi in range(rng.randint(1, 2)):
+            n = rng.randint(1, 3)
+            src, _ = S.gen_program(rng, t, n)
+            if rng.random() < 0.25:
+                src = src.rstrip("\n")
+            fn = ["svc.py", "pkg/handlers.py", "pkg/util/io.py", "tasks.py"][(2 * ti + fi) % 4]
+            sites, _, _ = S.analyse(src, t, n)
+            reported = [i for i in range(1, n + 1) if rng.random() < 0.7]
+            if ti == 0 and fi == 0 and not reported:
+                reported = [1]
+            for i in reported:
+                kid += 1
+                entries.append({"key": (1000 + kid) if t.tool == "defectdojo" else f"K{kid}", "rule": t.rule, "file": fn,
+                                "loc": list(S.tool_location(t.tool, sites[i]["reported"], False))})
+            files[fn] = src.encode("utf-8")
+            desc.append(f"{fn}:{t.id.split('/')[-1]}[{len(reported)}/{n}]")
+    files["clean.py"] = b"import os\n\n\ndef ok():\n    return os.getcwd()\n"
+    manifest = manifest or rng.choice(["requirements.txt", "requirements.txt", "setup.py", "pyproject.toml", "setup.cfg"])
+    text, d = gen_manifest(rng, manifest)
+    files[manifest] = text.encode("utf-8")
+    desc.append(d)
+    return files, [t.id for t in chosen], "sast:" + first.tool + " " + " ".join(desc), {"tool": first.tool, "entries": entries}
+
+
+def run_project(ctx, files, seq, tag, sast=None):
+    """sast: None, or {"tool": sonar|semgrep|defectdojo, "entries": [{key, rule, file, loc, status?}]} - the tool's result
+    file is written next to the project (never inside it) in the tool's own format and passed with the tool's flag"""
     root = Path(ctx.scratch) / "e2e" / tag
     proj = root / "proj"
     proj.mkdir(parents=True)
     core.write_tree(proj, files)
     out = root / "out.json"
-    r = core.run_cli([str(proj), "--output", str(out), "--codemod-include", ",".join(seq)], cwd=str(root), timeout=600)
+    args = [str(proj), "--output", str(out), "--codemod-include", ",".join(seq)]
+    if sast:
+        from harness import c06_sites as S
+        S.write_result_file(root / "results.json", sast["tool"], sast["entries"])
+        args += [S.cli_flag(sast["tool"]), str(root / "results.json")]
+    r = core.run_cli(args, cwd=str(root), timeout=600)
     final = core.read_tree(proj)
     report = None
     if out.exists():
@@ -567,9 +650,11 @@ def classify_e2e(ctx, path, before_texts, diffs=()):
     return "c03_diff_not_the_change"
 
 
-def check_project(ctx, files, seq, res, desc, e2e_pairs):
+def check_project(ctx, files, seq, res, desc, e2e_pairs, sast=None):
     """returns number of changesets seen"""
     replay = {"kind": "e2e", "project": core.b64tree(files), "codemods": seq, "desc": desc}
+    if sast:
+        replay["sast"] = sast
     if res["rc"] != 0 or res["report"] is None:
         ctx.violation("c03_cli_failed", f"CLI exit {res['rc']} / no report for {desc}: {res['stderr'][-300:]}",
                       {**replay, "observed": {"rc": res["rc"], "stderr": res["stderr"]}})
@@ -648,8 +733,9 @@ def run(ctx: core.Ctx):
     n_pure = 500 if quick else 20000
     n_exotic = 60 if quick else 1500
     n_cli = 24 if quick else 300
+    n_sast = 10 if quick else 120
     if getattr(ctx, "deep", False):
-        n_pure, n_cli = n_pure * 2, n_cli * 2
+        n_pure, n_cli, n_sast = n_pure * 2, n_cli * 2, n_sast * 2
     corpus = load_corpus()
 
     # ---- (1) pure
@@ -674,24 +760,29 @@ def run(ctx: core.Ctx):
     projects = []
     for c in corpus:
         if c.get("kind") == "e2e":
-            projects.append((core.unb64tree(c["project"]), c["codemods"], "corpus:" + c["_file"]))
+            projects.append((core.unb64tree(c["project"]), c["codemods"], "corpus:" + c["_file"], c.get("sast")))
     for i in range(n_cli):
         files, seq, desc = gen_project(rng, known_ok=(i % 6 == 5))
-        projects.append((files, seq, desc))
+        projects.append((files, seq, desc, None))
+    # SAST mode: tool-driven dependency-adding codemods, every manifest kind in turn
+    kinds = ["requirements.txt", "setup.py", "pyproject.toml", "setup.cfg"]
+    for i in range(n_sast):
+        projects.append(gen_sast_project(rng, manifest=kinds[i % 4] if i < 8 else None))
     results = [None] * len(projects)
     t0 = time.time()
 
     def one(i):
-        files, seq, desc = projects[i]
-        return i, run_project(ctx, files, seq, f"p{i}")
+        files, seq, desc, sast = projects[i]
+        return i, run_project(ctx, files, seq, f"p{i}", sast)
     with cf.ThreadPoolExecutor(max_workers=min(12, core.NCPU)) as ex:
         for i, res in ex.map(one, range(len(projects))):
             results[i] = res
     ctx.notes.append(f"cli phase: {len(projects)} runs in {round(time.time() - t0, 1)}s")
     e2e_pairs = []
-    for (files, seq, desc), res in zip(projects, results):
+    for (files, seq, desc, sast), res in zip(projects, results):
         ctx.cli_runs += 1
-        n = check_project(ctx, files, seq, res, desc, e2e_pairs)
+        n = check_project(ctx, files, seq, res, desc, e2e_pairs, sast)
+        ctx.count("e2e_mode:" + ("sast:" + sast["tool"] if sast else "find-and-fix"))
         ctx.count("e2e_seq_len:%d" % len(seq))
         for k in seq:
             ctx.count("e2e_codemod:" + k.split("/")[-1])
@@ -727,9 +818,9 @@ def replay(ctx, body):
         return 0 if ok else 1
     if body.get("kind") == "e2e":
         files = core.unb64tree(body["project"])
-        res = run_project(ctx, files, body["codemods"], "replay")
+        res = run_project(ctx, files, body["codemods"], "replay", body.get("sast"))
         before = len(ctx.violations)
-        check_project(ctx, files, body["codemods"], res, body.get("desc", "replay"), [])
+        check_project(ctx, files, body["codemods"], res, body.get("desc", "replay"), [], body.get("sast"))
         for v in ctx.violations[before:]:
             print(f"[{v['class']}] {v['what']}")
         print("violations now:", len(ctx.violations) - before)
